@@ -45,14 +45,15 @@ def decKey (q : Quota) : String := q.key ++ "_QuotaProcessorDec"
 def gStart : End := .stream "globalStream" "start"
 def gEnd : End := .stream "globalStream" "end"
 
-/-- `SystemFlowRepresentation.generateSystemFlow` for the processors `keys` of one location, as the
-    code behaves: `appendSystemProcessorsToFlow` appends the `p_i → p_{i+1}` connections to a COPY of
-    the slice header (they are lost) and overwrites the shared `ProcessorRef` with the next key, so the
-    result is `stream start → LAST`, `LAST → stream end`: only the last processor is wired. -/
-def sysConns (keys : List String) : List Conn :=
-  match keys.getLast? with
-  | none => []
-  | some k => [⟨gStart, .proc k ""⟩, ⟨.proc k "", gEnd⟩]
+/-- `SystemFlowRepresentation.generateSystemFlow` for the processors `keys` of one location (after the
+    fix F04e): `stream start → p₁ → p₂ → … → pₙ → stream end`. -/
+def sysChainFrom : String → List String → List Conn
+  | k, [] => [⟨.proc k "", gEnd⟩]
+  | k, k' :: ks => ⟨.proc k "", .proc k' ""⟩ :: sysChainFrom k' ks
+
+def sysConns : List String → List Conn
+  | [] => []
+  | k :: ks => ⟨gStart, .proc k ""⟩ :: sysChainFrom k ks
 
 /-- processor definitions of the two real system processors (registry/quota_processor_{inc,dec}.yaml) -/
 def sysPTypes : List PType :=
